@@ -1,11 +1,15 @@
 import Driver.OpsValidate
 import Driver.OpsCarddav
+import Driver.OpsCaldav
 namespace Driver
 
 def dispatch (op : String) (args : List SExp) : Option OpResult :=
   match op with
   | "cal.validate" => opValidate args
   | "card.match" => opCardMatch args
+  | "cal.match" => opCalMatch args
+  | "cal.filter" => opCalFilter args
+  | "cal.dtend" => opCalDtend args
   | "card.filter" => opCardFilter args
   | _ => none
 
